@@ -93,11 +93,11 @@ def do_sign(case, sk=None):
     if entry == "sign":
         return sk.sign(bytes.fromhex(case["data"]), entropy=ent, hashfunc=H, sigencode=enc, k=k, allow_truncate=case["allow_truncate"])
     if entry == "sign_digest":
-        return sk.sign_digest(bytes.fromhex(case["digest"]), entropy=ent, sigencode=enc, k=k, allow_truncate=case["allow_truncate"])
+        return sk.sign_digest(E.digest_obj(case), entropy=ent, sigencode=enc, k=k, allow_truncate=case["allow_truncate"])
     if entry == "sign_deterministic":
         return sk.sign_deterministic(bytes.fromhex(case["data"]), hashfunc=H, sigencode=enc, extra_entropy=ee)
     if entry == "sign_digest_deterministic":
-        return sk.sign_digest_deterministic(bytes.fromhex(case["digest"]), hashfunc=H, sigencode=enc, extra_entropy=ee,
+        return sk.sign_digest_deterministic(E.digest_obj(case), hashfunc=H, sigencode=enc, extra_entropy=ee,
                                             allow_truncate=case["allow_truncate"])
     r, s = sk.sign_number(case["number"], entropy=ent, k=k)
     return enc(r, s, n)
@@ -116,7 +116,7 @@ def do_verify(case, sig, vk=None):
         allow = True if entry == "sign_deterministic" else case["allow_truncate"]
         return vk.verify(sig, bytes.fromhex(case["data"]), hashfunc=H, sigdecode=dec, allow_truncate=allow)
     if entry in ("sign_digest", "sign_digest_deterministic"):
-        return vk.verify_digest(sig, bytes.fromhex(case["digest"]), sigdecode=dec, allow_truncate=case["allow_truncate"])
+        return vk.verify_digest(sig, E.digest_obj(case), sigdecode=dec, allow_truncate=case["allow_truncate"])
     r, s = dec(sig, n)
     return vk.pubkey.verifies(case["number"], Signature(r, s))
 
@@ -321,6 +321,8 @@ def all_cases(ctx):
     for t in E.pick_toys(rng, 3 if q else 20):
         extra += curve_cases(rng, E.curve_spec(t, rng.choice("ja")), 3 if q else 10, "toy")
     out += [(tag, case, False) for tag, case, _ in extra]
+    # the digest entry points on non-bytes bytes-like digests (bytearray, memoryview, multi-byte-item views and arrays)
+    out += E.container_variants(rng, [x for x in out if x[1].get("entry") in ("sign_digest", "sign_digest_deterministic")], 0.3)
     ctx._c01_cases = out
     return out
 
@@ -334,7 +336,7 @@ def correspond(ctx):
             cv, cp, t = E.resolve_curve(case["curve"])
             cost = 3e-5 if t is not None else E.linecost(cv)
             for line, th, kind in case_lines(case):
-                c[kind].add(line, th, tag, cost)
+                c[kind].add(line, th, tag, cost, key=case.get("container"))
     for k in c:
         c[k].run()
         c[k].mirror_ref().run()
